@@ -492,7 +492,21 @@ impl Property for C06 {
                     }
                     Err(Ok(e)) => {
                         fp.str(&format!("eval-err{:?}", e.kind));
-                        ex.count("evaluation_typed_errors(balance not checked)", 1);
+                        if e.kind == sut::ErrKind::MissingFactor && matches!(scn.cfg.factors, FactorSpec::Loc(_)) && !may_err {
+                            // the regulatory factor sets define every carrier: a missing factor means the auxiliary
+                            // (or other) energy of this building cannot be counted at all
+                            violation = Some(Violation::new(
+                                "balance_el_use",
+                                "evaluation-fails",
+                                format!(
+                                    "the file parses but its evaluation with the complete factor set of a location{} fails: {}",
+                                    if scn.cfg.strip { " (simplified for this building, as the CLI does by default)" } else { "" },
+                                    e.msg
+                                ),
+                            ));
+                        } else {
+                            ex.count("evaluation_typed_errors(balance not checked)", 1);
+                        }
                     }
                     Err(Err(p)) => {
                         fp.str("eval-panic").str(&p.site);
